@@ -44,7 +44,7 @@ if (_SEED // 2) % 2:
 # two of the user-defined type names differ from a native name only by case (legal: the reserved names are exact)
 DRAWS = {'z_first': 'Uniform', 'a_second': 'normal_halton2', 'M_third': 'DET_C'}
 PATTERN = {
-    'DET_C': lambda n, r: 0.1 * (n + 1) + 0.01 * (r + 1),
+    'DET_C': lambda n, r: float(2 * n - r + 1),   # integer-valued: this generator returns an int64 array (see make_db)
     'Uniform': lambda n, r: -0.2 * (n + 1) + 0.03 * (r + 1) * (r + 1),
     'normal_halton2': lambda n, r: 0.05 * (n + 2) * (r + 1) - 0.3,
 }
@@ -98,13 +98,18 @@ def make_db(nobs, log):
     rows = [{c: float(DATA[c][i]) for c in COLS} for i in range(nobs)]
     db = mk(rows, COLS)
 
-    def gen(typ):
+    def gen(typ, shift=0.0):
         def g(n, r_):
-            arr = np.array([[PATTERN[typ](i, r) for r in range(r_)] for i in range(n)], dtype=float)
-            log.append((typ, n, r_))
+            arr = np.array([[PATTERN[typ](i, r) + shift for r in range(r_)] for i in range(n)], dtype=float)
+            if typ == 'DET_C' and shift == 0.0:
+                arr = arr.astype(np.int64)      # a generator of integer draws (counts, 0/1 switches) is legal
+            if shift == 0.0:
+                log.append((typ, n, r_))
             return arr
         return g
 
+    # the types are first registered with other generators, then registered again: the latest registration counts
+    db.set_random_number_generators({t: (gen(t, shift=100.0), f'superseded {t}') for t in PATTERN})
     db.set_random_number_generators({t: (gen(t), f'deterministic {t}') for t in PATTERN})
     return db, rows
 
@@ -121,6 +126,9 @@ def tasks(tier, seed):
             t.append(dict(part='seeded', typ=typ, seed=sd, run=0, fresh=True))
             t.append(dict(part='seeded', typ=typ, seed=sd, run=1, fresh=True))
     t.append(dict(part='native_table', tier=tier))
+    pairs = [list(c) for c in itertools.permutations(list(DRAWS), 2)]
+    for i, first in enumerate(pairs):
+        t.append(dict(part='reuse', first=first, tier=tier))
     t.append(dict(part='refusals'))
     t.append(dict(part='integrate', tier=tier))
     t.append(dict(part='derive'))
@@ -142,6 +150,8 @@ def run_task(task):
         _seeded(task, rec)
     elif part == 'native_table':
         _native_table(task, rec)
+    elif part == 'reuse':
+        _reuse(task, rec)
     elif part == 'refusals':
         _refusals(rec)
     elif part == 'integrate':
@@ -220,6 +230,48 @@ def _mc(task, rec):
                         bad('monte-carlo-value-not-mean-over-own-series:BIOGEME.simulate', f'{fname}: {sim} expected {want}')
                     if not close(ll, sum(want), 1e-9):
                         bad('monte-carlo-value-not-mean-over-own-series:BIOGEME.calculate_likelihood', f'{fname}: {ll} expected {sum(want)}')
+
+
+def _reuse(task, rec):
+    """Histories on ONE database object: formulas with different sets of draw variables (same and different numbers of
+    variables, same and different R) are evaluated one after the other through the expression-level entry point; each
+    value must be the mean over the series of its OWN variables, whatever was evaluated before."""
+    spec = {nm: (v, None, None, 0) for nm, v in PARAMS[0].items()}
+    names = list(DRAWS)
+    sets2 = [list(c) for c in itertools.permutations(names, 2)]
+    others = sets2 + [[n] for n in names] + ([list(c) for c in itertools.permutations(names, 3)][:2])
+    p = PARAMS[1]
+    nobs = 2
+    depth3 = sets2 if task['tier'] == 'thorough' else sets2[::2]
+    for second in others:
+        for third in depth3:
+            for Rs in ((2, 2, 2), (2, 3, 2)):
+                log = []
+                db, rows = make_db(nobs, log)
+                seq = [task['first'], second, third]
+                for step, (ds, Rn) in enumerate(zip(seq, Rs)):
+                    integrand = integrands(ds)['linear' if step != 1 else 'exp']
+                    formula = ('mc', integrand)
+                    used = R.leaves(integrand, 'draw')
+                    case = dict(part='reuse', first=task['first'], tier=task['tier'])
+                    try:
+                        got = [float(v) for v in R.Builder(spec).build(formula).get_value_c(database=db, betas=dict(p), number_of_draws=Rn,
+                                                                                             prepare_ids=True)]
+                    except Exception as e:
+                        rec.violation(f'C10|raised-{type(e).__name__}|history-on-one-database', f'sequence {seq} R={Rs} step {step}: {str(e)[:200]}', case)
+                        rec.retire = True
+                        return
+                    want = []
+                    for n_, row in enumerate(rows):
+                        series = {nm: [PATTERN[DRAWS[nm]](n_, r) for r in range(Rn)] for nm in used}
+                        want.append(R.evaluate(formula, row=row, params=p, draws=series))
+                    rec.case(('reuse', tuple(map(tuple, seq)), Rs, step), (seq, Rs, step, [round(v, 10) for v in got]), outcome=('reuse', step))
+                    if any(not close(g, w) for g, w in zip(got, want)):
+                        rec.violation(f'C10|monte-carlo-value-depends-on-earlier-evaluations|step={step}',
+                                      f'on one database, sequence of draw sets {seq} with R={Rs}: step {step} gave {got}, expected {want}', case,
+                                      expected=want, observed=got)
+                        break
+    rec.sample(dict(part='reuse', first=task['first']))
 
 
 def _seeded(task, rec):
@@ -459,6 +511,8 @@ def replay(case):
         return a.violations
     elif part == 'native_table':
         _native_table(case, rec)
+    elif part == 'reuse':
+        _reuse(case, rec)
     elif part == 'refusals':
         _refusals(rec)
     elif part == 'integrate':
